@@ -42,6 +42,7 @@ func init() {
 		{"Policy.baseName", stringConst(cp, "BaseName", "Policy.baseName")},
 		{"Policy.baseGroupFor", baseGroupFacts(cp)},
 		{"Policy.pendingIncCount", pendingIncCount("submission/distributor.go")},
+		{"Policy.rootChoice", rootChoiceFacts("submission/distributor.go")},
 		{"Policy.temporallyCompatible", condKernel("loglist3/logfilter.go", "LogList.TemporallyCompatible",
 			[]string{"TemporalInterval.EndExclusive", "TemporalInterval.StartInclusive"}, "Policy.temporallyCompatible", "(notAfter start limit : Int)",
 			Spec{Kind: "i64", Repl: map[string]string{"cert.NotAfter": "notAfter",
@@ -50,6 +51,7 @@ func init() {
 		{"Policy.postInterval", funcKernel("submission/races.go", "postInterval", "Policy.postInterval",
 			"(idx_ parallelStart_ dur_ : Int)", "Int", Spec{Kind: "i64"})},
 		{"Policy.lockTable", lockTable()},
+		{"Policy.unlistedSharedWrites", unlistedSharedWrites()},
 	}})
 }
 
@@ -363,6 +365,8 @@ type lockWalker struct {
 	ctor  bool
 	rows  *[]lockRow
 	nlits int
+	// lenient: do not refuse selectors of unknown base type (used by the unlisted-writes scan, where every field name counts)
+	lenient bool
 }
 
 func baseTypeName(e ast.Expr) string {
@@ -483,7 +487,7 @@ func (w *lockWalker) reads(e ast.Node) {
 				return true // the base may itself be an access (s.p.dist.policy)
 			}
 			// a guarded field name selected from something we cannot type: refuse rather than miss an access
-			if w.isGuarded(x.Sel.Name) && w.typeOf(x.X) == "" {
+			if !w.lenient && w.isGuarded(x.Sel.Name) && w.typeOf(x.X) == "" {
 				if _, plain := x.X.(*ast.Ident); !plain {
 					failf(x, "access to a field named %s through an expression of unknown type: %s", x.Sel.Name, src(x))
 				}
@@ -879,4 +883,225 @@ func quoteAll(xs []string) string {
 		q = append(q, fmt.Sprintf("%q", x))
 	}
 	return strings.Join(q, ", ")
+}
+
+// ---------------------------------------------------------------------------
+// Completeness of the guard list: every struct of the two packages that carries a sync.Mutex / sync.RWMutex is
+// found by itself; every field of such a struct that is written outside the construction / initialisation phase
+// must be in the struct's guarded list (guardSpecs). The writes that are not are emitted; the theorem says: none.
+
+// initPhase: functions that run before the object is shared (constructors, options applied by the constructor,
+// Run methods before they start their goroutines).
+var initPhase = map[string][]string{
+	"LogGroupInfo":         {"LogGroupInfo.populate", "LogGroupInfo.setMinInclusions"},
+	"Distributor":          {"NewDistributor", "Distributor.buildLogClients", "DisableRootCompatibilityCheckingDistributorOption.Apply"},
+	"Proxy":                {"NewProxy", "Proxy.Run"},
+	"safeSubmissionState":  {"newSafeSubmissionState"},
+	"LogListManager":       {"NewLogListManager", "LogListManager.Run"},
+	"logListRefresherImpl": {"NewCustomLogListRefresher"},
+}
+
+func unlistedSharedWrites() func() string {
+	return func() string {
+		var out []string
+		var structs []string
+		for _, dir := range []string{"ctpolicy", "submission"} {
+			ents, err := os.ReadDir(rp(dir))
+			if err != nil {
+				panic(bail{fmt.Sprintf("read %s: %v", dir, err)})
+			}
+			var files []string
+			for _, e := range ents {
+				if !e.IsDir() && strings.HasSuffix(e.Name(), ".go") && !strings.HasSuffix(e.Name(), "_test.go") {
+					files = append(files, filepath.Join(dir, e.Name()))
+				}
+			}
+			ftyp := map[string]map[string]string{}
+			type mstruct struct {
+				name, mutex string
+				fields      []string
+			}
+			var ms []mstruct
+			for _, rel := range files {
+				for _, d := range parseFile(rp(rel)).Decls {
+					gd, ok := d.(*ast.GenDecl)
+					if !ok {
+						continue
+					}
+					for _, sp := range gd.Specs {
+						ts, ok := sp.(*ast.TypeSpec)
+						if !ok {
+							continue
+						}
+						st, ok := ts.Type.(*ast.StructType)
+						if !ok {
+							continue
+						}
+						m := map[string]string{}
+						mu := ""
+						var fs []string
+						for _, fl := range st.Fields.List {
+							for _, n := range fl.Names {
+								m[n.Name] = baseTypeName(fl.Type)
+								if t := src(fl.Type); t == "sync.Mutex" || t == "sync.RWMutex" {
+									mu = n.Name
+								} else {
+									fs = append(fs, n.Name)
+								}
+							}
+						}
+						ftyp[ts.Name.Name] = m
+						if mu != "" {
+							ms = append(ms, mstruct{ts.Name.Name, mu, fs})
+						}
+					}
+				}
+			}
+			for _, m := range ms {
+				structs = append(structs, fmt.Sprintf("%q", m.name))
+				guarded := map[string]bool{}
+				known := false
+				for _, g := range guardSpecs {
+					if g.typ == m.name && g.dir == dir {
+						known = true
+						if g.mutex != m.mutex {
+							panic(bail{fmt.Sprintf("%s: guard list names mutex %s, struct has %s", m.name, g.mutex, m.mutex)})
+						}
+						for _, f := range g.fields {
+							guarded[f] = true
+						}
+					}
+				}
+				if !known {
+					panic(bail{fmt.Sprintf("%s/%s carries mutex %s but has no entry in the guard list", dir, m.name, m.mutex)})
+				}
+				initf := map[string]bool{}
+				for _, f := range initPhase[m.name] {
+					initf[f] = true
+				}
+				var rows []lockRow
+				sp := guardSpec{dir, m.name, m.mutex, m.fields, nil}
+				for _, rel := range files {
+					for _, d := range parseFile(rp(rel)).Decls {
+						fd, ok := d.(*ast.FuncDecl)
+						if !ok || fd.Body == nil {
+							continue
+						}
+						w := &lockWalker{spec: sp, rel: rel, vars: map[string]string{}, ftyp: ftyp, fn: funcQualName(fd), rows: &rows, lenient: true}
+						if fd.Recv != nil && len(fd.Recv.List) == 1 {
+							for _, n := range fd.Recv.List[0].Names {
+								w.vars[n.Name] = baseTypeName(fd.Recv.List[0].Type)
+							}
+						}
+						w.declareParams(fd.Type)
+						w.block(fd.Body.List)
+					}
+				}
+				seen := map[string]bool{}
+				for _, r := range rows {
+					base := r.fn
+					if i := strings.Index(base, ".func"); i >= 0 {
+						base = base[:i]
+					}
+					if !r.write || guarded[r.field] || initf[base] {
+						continue
+					}
+					k := r.typ + "|" + r.field + "|" + r.fn
+					if seen[k] {
+						continue
+					}
+					seen[k] = true
+					out = append(out, fmt.Sprintf("(%q, %q, %q) /- %s -/", r.typ, r.field, r.fn, r.pos))
+				}
+			}
+		}
+		return "/-- generated: the structs of ctpolicy/ and submission/ that carry a sync.Mutex / sync.RWMutex (found by the walk, not listed by hand);\n" +
+			"    each of them must have an entry in the guard list or extraction fails -/\n" +
+			"def Policy.mutexStructs : List String := [" + strings.Join(structs, ", ") + "]\n\n" +
+			"/-- generated: writes to a field of such a struct that is NOT in the struct's guarded list, outside the construction /\n" +
+			"    initialisation functions (struct, field, function) -/\n" +
+			"def Policy.unlistedSharedWrites : List (String × String × String) :=\n  [" + strings.Join(out, ",\n   ") + "]\n"
+	}
+}
+
+// rootChoiceFacts anchors the model's `chooseRoot` / pending-logs call to Distributor.addSomeChain: the closure
+// compatibleLogsAndChain must consist of exactly the statements below; the last return (the fallback when the chain does
+// not verify against the merged pool and root data is incomplete) has two accepted forms, which set
+// Policy.fallbackKeepsKnownRootLogs.
+func rootChoiceFacts(rel string) func() string {
+	return func() string {
+		fd := mustFunc(rel, "Distributor.addSomeChain")
+		var lit *ast.FuncLit
+		for _, st := range fd.Body.List {
+			if a, ok := st.(*ast.AssignStmt); ok && len(a.Lhs) == 1 && src(a.Lhs[0]) == "compatibleLogsAndChain" {
+				lit, _ = a.Rhs[0].(*ast.FuncLit)
+			}
+		}
+		if lit == nil {
+			panic(bail{rel + ": closure compatibleLogsAndChain not found in addSomeChain"})
+		}
+		var got []string
+		for _, st := range lit.Body.List {
+			got = append(got, src(st))
+		}
+		head := []string{
+			"parsedChain, err := parseRawChain(rawChain)",
+			"if err != nil { return loglist3.LogList{}, nil, fmt.Errorf(\"distributor unable to parse cert-chain: %v\", err) }",
+			"if d.rootCompatibilityCheckDisabled { return d.usableLl.Compatible(parsedChain[0], nil, loglist3.LogRoots{}), parsedChain, nil }",
+			"d.mu.RLock()",
+			"defer d.mu.RUnlock()",
+			"vOpts := ctfe.NewCertValidationOpts(d.rootPool, time.Time{}, false, false, nil, nil, false, nil)",
+			"rootedChain, err := ctfe.ValidateChain(rawChain, vOpts)",
+			"if err == nil { return d.usableLl.Compatible(rootedChain[0], rootedChain[len(rootedChain)-1], d.logRoots), rootedChain, nil }",
+			"if d.rootDataFull { return loglist3.LogList{}, nil, fmt.Errorf(\"distributor unable to process cert-chain: %w\", err) }",
+		}
+		tailKeep := []string{"return d.usableLl.Compatible(parsedChain[0], nil, d.logRoots), parsedChain, nil"}
+		tailDrop := []string{"temporal := d.usableLl.TemporallyCompatible(parsedChain[0])", "return temporal.RootCompatible(nil, d.logRoots), parsedChain, nil"}
+		match := func(want []string) bool {
+			if len(got) != len(want) {
+				return false
+			}
+			for i := range want {
+				if got[i] != want[i] {
+					return false
+				}
+			}
+			return true
+		}
+		keep := ""
+		switch {
+		case match(append(append([]string{}, head...), tailKeep...)):
+			keep = "true"
+		case match(append(append([]string{}, head...), tailDrop...)):
+			keep = "false"
+		default:
+			for i, g := range got {
+				if i >= len(head) || g != head[i] {
+					panic(bail{fmt.Sprintf("%s: compatibleLogsAndChain statement %d is `%s` (not one of the accepted forms)", rel, i, g)})
+				}
+			}
+			panic(bail{rel + ": compatibleLogsAndChain has an unexpected shape"})
+		}
+		// the pending-logs call: started only with loadPendingLogs, on d.pendingQualifiedLl unfiltered
+		pend := findStmts(fd, func(st ast.Stmt) bool {
+			i, ok := st.(*ast.IfStmt)
+			return ok && src(i.Cond) == "loadPendingLogs"
+		})
+		if len(pend) != 1 || !strings.Contains(src(pend[0]), "d.pendingLogsPolicy.LogsByGroup(parsedChain[0], d.pendingQualifiedLl)") ||
+			!strings.Contains(src(pend[0]), "GetSCTs(ctx, d, chain, asPreChain, pendingGroup)") {
+			panic(bail{rel + ": the loadPendingLogs block of addSomeChain has an unexpected shape"})
+		}
+		nd := mustFunc(rel, "NewDistributor")
+		if !strings.Contains(src(nd), "usableStat := []loglist3.LogStatus{loglist3.UsableLogStatus}") ||
+			!strings.Contains(src(nd), "pendingQualifiedStat := []loglist3.LogStatus{ loglist3.PendingLogStatus, loglist3.QualifiedLogStatus}") {
+			panic(bail{rel + ": NewDistributor's status selections have an unexpected shape"})
+		}
+		return fmt.Sprintf("/-- generated from %s func Distributor.addSomeChain (closure compatibleLogsAndChain, checked statement by statement):\n"+
+			"    check disabled ⇒ Compatible(cert, nil, {}); chain verifies against the merged pool ⇒ Compatible(cert, root, logRoots);\n"+
+			"    otherwise rootDataFull ⇒ error; otherwise the fallback, which either keeps the logs with known roots\n"+
+			"    (`Compatible(cert, nil, logRoots)`) or drops them (`TemporallyCompatible(cert).RootCompatible(nil, logRoots)`).\n"+
+			"    Also checked: the loadPendingLogs block runs GetSCTs on pendingLogsPolicy.LogsByGroup(cert, pendingQualifiedLl) unfiltered;\n"+
+			"    usableLl = status Usable, pendingQualifiedLl = status Pending or Qualified. -/\n"+
+			"def Policy.fallbackKeepsKnownRootLogs : Bool := %s\n", rel, keep)
+	}
 }
